@@ -35,6 +35,17 @@ theorem C09_order_c (fuel : Nat) (S S' : Schema) (p : SchemaPerm S S') :
     (verifyModel .canC fuel S = .ok ()) ↔ (verifyModel .canC fuel S' = .ok ()) :=
   verify_perm_c fuel S S' p
 
+/-- beyond the property's list: the C++ plug-in's check set (a `service` check added to the
+plug-in with fix 35b0f7d, so that "accepted" means the rpc layer can be generated: service and
+method ids in 0..255, unique ids and names, payloads that are declared structs), as an iff and
+invariant under declaration order like the other sets -/
+theorem C09_cpp (fuel : Nat) (S : Schema) :
+    verifyModel .cpp fuel S = .ok () ↔ WellFormed S ∧ CppOk S := verify_iff_cpp fuel S
+
+theorem C09_order_cpp (fuel : Nat) (S S' : Schema) (p : SchemaPerm S S') :
+    (verifyModel .cpp fuel S = .ok ()) ↔ (verifyModel .cpp fuel S' = .ok ()) :=
+  verify_perm_cpp fuel S S' p
+
 /-! non-vacuity: an accepted and a rejected schema -/
 def C09_good : Schema := {
   structs := [{ name := "A", fields := [{ name := "x", id := 0, ty := .u 8 }] }],
@@ -44,5 +55,9 @@ def C09_bad : Schema := { C09_good with
   enums := [{ name := "A", enumeration := [⟨"P", 0⟩] }] }
 example : (verifyModel .canC 5 C09_good).toOption = some () := by decide
 example : (verifyModel .general 5 C09_bad).toOption = none := by decide
+def C09_svc (id : Int) : Schema := { C09_good with
+  services := [{ name := "S", id := id, methods := [⟨"m", 0, "A", "A"⟩] }] }
+example : (verifyModel .cpp 5 (C09_svc 255)).toOption = some () ∧ (verifyModel .cpp 5 (C09_svc 256)).toOption = none ∧
+    (verifyModel .general 5 (C09_svc 256)).toOption = some () := by decide
 
 end Fcp
